@@ -229,6 +229,7 @@ def main():
                          "paths": r.get("stats", {}).get("paths"), "reached": r.get("stats", {}).get("reached"),
                          "solver_and_interpreter_cpu_s": r.get("cpu_s"), "validated": r.get("validated")} for r in results],
             "functions_encoded": meta.get("real", []),
+            "solver_reasoned_variables": meta.get("solver_reasoned", ""),
             "bounds": {qu["name"]: qu.get("bound", "") for qu in mod.QUERIES if not only or qu["name"] in only},
             "outside_bounds": meta.get("outside", []),
             "stubs": meta.get("stubs", []),
